@@ -53,7 +53,7 @@ def drive(seed, nops=16):
             k = rnd.randrange(len(frames))
             fr, sc = frames[k]
             op = rnd.choice(["chi2", "gauss", "trunc", "obs", "obs_user", "zero", "signal", "signal", "const", "snr", "snr", "slice",
-                             "dedrift", "integrate", "copy", "pickle", "bad_noise", "bad_signal", "save_load", "save_load", "pickle_file", "get_waterfall", "rewrap", "meta", "meta", "dedrift_meta", "family_meta"])
+                             "dedrift", "integrate", "copy", "pickle", "bad_noise", "bad_signal", "save_load", "save_load", "pickle_file", "get_waterfall", "rewrap", "meta", "meta", "dedrift_meta", "family_meta", "info"])
             try:
                 if op == "chi2":
                     fr.add_noise(x_mean=rnd.choice([1, 10, 25.5]) * sc, noise_type="chi2")
@@ -128,6 +128,8 @@ def drive(seed, nops=16):
                     who = child if rnd.random() < 0.6 else fr
                     who.add_metadata({"drift_rate": rnd.choice([0.0, 0.6]) * fr.unit_drift_rate})
                     frames.append((stg.dedrift(fr if who is child else child), sc))
+                elif op == "info":
+                    rnd.choice([fr.get_noise_stats, fr.get_total_stats, fr.get_params, fr.get_metadata])()
                 elif op == "rewrap":
                     # a second frame built from the first one's pixel array: the constructor copies, so the two stay independent
                     frames.append((stg.Frame.from_data(fr.df, fr.dt, fr.fch1, fr.ascending, fr.data, seed=rnd.randrange(1 << 30)), sc))
